@@ -58,6 +58,10 @@ def span_str(sp, facts=None):
     return "%s:%s" % (f, sp.get("line"))
 
 
+ARITH_TRAITS = {"std::ops::Add::add": "Add", "std::ops::Sub::sub": "Sub", "std::ops::Mul::mul": "Mul",
+                "std::ops::Div::div": "Div", "std::ops::Rem::rem": "Rem", "std::ops::Neg::neg": "Neg"}
+
+
 class Loop:
     def __init__(self, header, body, latches):
         self.header = header
@@ -819,7 +823,20 @@ class Fn:
         callee = t.get("resolved") or t.get("callee")
         if callee is None:
             callee = ("fnptr", self.operand(t["fnptr"], (bb, n)))
-        v = ("call", callee, args, bb)
+        v = None
+        # arithmetic on f64 / &f64 through the operator traits is the same as the MIR binary operation
+        decl = t.get("callee") or ""
+        if decl in ARITH_TRAITS and all(ta.replace("&", "").replace("'_ ", "").strip() in ("f64", "f32") for ta in t.get("targs", [])) \
+                and t.get("targs"):
+            ops = []
+            for a, ta in zip(args, t.get("targs")):
+                ops.append(self._deref(a, (bb, n)) if ta.strip().startswith("&") else a)
+            if decl == "std::ops::Neg::neg" and len(ops) == 1:
+                v = ("un", "Neg", ops[0])
+            elif len(ops) == 2:
+                v = ("bin", ARITH_TRAITS[decl], ops[0], ops[1])
+        if v is None:
+            v = ("call", callee, args, bb)
         self._vmemo[key] = v
         return v
 
